@@ -108,6 +108,30 @@ P = {
   ref="5/C20"),
 }
 
+# what the later validation rounds added (DESIGN 11.6): workloads that vary what happened before a call
+WALK = "Seeded single-thread sequences of 6..16 operations, each input derived from the previous one (same input, +-1, days / a month / half a year / a year away, the same month-day in a year differing by a cycle, a power of two or ten or a digit), are judged answer by answer by the same oracle, so that a memo with an incomplete key is met by the inputs it confuses."
+HISTORY = {
+ "C01": WALK + " Evening Julian dates up to 23:59:59.9 and refused neighbour triples are part of the sequences.",
+ "C02": WALK + " Lunar days that have already answered questions are also stepped through one month in six (all in thorough) and compared with the counted calendar.",
+ "C03": WALK + " The sequences mix the uncached constructor, refused labels followed by valid ones, leap-month queries, stepping, month lists and resets of the month cache through the guarded hook.",
+ "C04": WALK + " The sequences are the lunar-month histories of C03, judged against the enumeration the rule has just been applied to.",
+ "C05": WALK + " The sequences are the lunar-month histories of C03 over 1961-8000, judged against the first days that have just been compared with the precise conjunctions.",
+ "C06": WALK + " Constructions by raw index -30..53, by name and by stepping are mixed with day and instant look-ups on the same three years.",
+ "C07": WALK,
+ "C08": WALK + " Instants are walked as well (same instant, +-1 s, +-2 h, day edges, same clock time on a related day).",
+ "C09": WALK + " Hours that have already answered questions are also stepped (chains of 1..3 LunarHour::next) and judged at the instant 7200*n s later.",
+ "C10": "Values that have answered questions are compared with never-touched values of the same date (==, !=, rendering, order, round trips).",
+ "C12": WALK + " Instants are walked (same instant, +-1 s, +-2 h, day edges, same clock time on a related day).",
+ "C13": WALK,
+ "C14": WALK,
+ "C15": WALK,
+ "C16": "Before anything else runs, single-threaded sequences of related births (both sides of the year's first and last Jie in one civil year, both sides of a Jie within a month, the same month a year later, both genders) are judged one after the other.",
+ "C17": WALK + " The day almanac of hour.get_lunar_day() taken after hour-level queries (23:xx, 00:xx, both sides of a Jie instant) is compared with a freshly built day.",
+ "C18": "The cells are then queried again in drawn order on all worker threads at once and compared with the same independent parse.",
+ "C19": "All attributes of every value of the nine attributed cycles are read, the value is stepped by every n in a window and back, and the stepped values' attributes are compared with those of constructed values.",
+ "C20": WALK + " Every pair of (year, index) whose decimal concatenations coincide, and the month/day pairs (1,1k)/(11,k), (1,2k)/(12,k), are looked up back to back.",
+}
+
 def main():
     checks, na = [], []
     for pid in sorted(P):
@@ -116,7 +140,10 @@ def main():
         if not registered:
             na.append({"property_id": pid, "reason": "monitor not built yet in this revision; planned per DESIGN.md section 5 (runtime monitoring applies, nothing is claimed until the check exists)"})
             continue
-        d = P[pid]
+        d = dict(P[pid])
+        if pid in HISTORY:
+            d["technique"] += "; plus single-thread histories over related inputs (state carried by values, threads or the process)"
+            d["text"] += " " + HISTORY[pid]
         checks.append({
             "property_id": pid,
             "quick_cmd": f"./check {pid} quick",
